@@ -478,7 +478,8 @@ def run(ctx):
                 rep.violation("C14 violated (model and implementation agree, not a recorded finding): %s | case: %s" % (why, il[pos][:300]),
                               dict(replay, impl=ir[:3000], model=mr[:3000], k_count=n))
     # the refutation witnesses of Props/C14.v (corpus/C14/f<id>_*.json) must still show their finding on the real code
-    want = {"f10a": "F10a", "f10b": "F10b", "f10c": "F10c", "f14_1": "F14.1"}
+    # (corpus/C14/f14_1_*.json are the former witnesses of F14.1, fixed: plain regression inputs now)
+    want = {"f10a": "F10a", "f10b": "F10b", "f10c": "F10c"}
     for case, mode in jobs:
         t = case.get("tag", "")
         if mode == "fresh" and t.startswith("corpus/f"):
@@ -503,7 +504,7 @@ def run(ctx):
         "disagreements_checked": len(rep.violations),
         "disagreements_rule": "every outcome of every failing index goes through the model-independent oracle; model/implementation disagreement and oracle failures outside the recorded findings are violations",
         "explanation": "PROVED (Coq, all states satisfying the invariant, all failure sets): atomicity and retry for the request classes listed in notes/C14.md (safe classes), all-or-nothing "
-                       "delivery of staged messages for every request, refutation witnesses for the unsafe classes (F10a-c, F14.1). EXPLORED ONLY (harness): that the real allocator-level behaviour "
+                       "delivery of staged messages for every request, refutation witnesses for the unsafe classes (F10a-c); the former F14.1 classes (ReleaseName by the owner, replacing RequestName) are covered since the fix of restore_ownership. EXPLORED ONLY (harness): that the real allocator-level behaviour "
                        "matches the model's outcome sequence, 'leaks nothing' (_dbus_get_malloc_blocks_outstanding() == 0 after teardown + dbus_shutdown for every failing index, ASan for stale uses; "
                        "plus one LeakSanitizer pass per case), the library leg (message build/copy/edit, bus_match_rule_parse, bus_config_load under injection).",
     })
